@@ -297,9 +297,8 @@ func (g *b44gen) put(v interface{}, seq *int64, cas int64, salt []byte, mutable 
 		if sig == 2 {
 			a.Sig[g.r.intn(64)] ^= 1 << uint(g.r.intn(8))
 		}
-		if v != nil {
-			e.pre = "sedtable " + edLine(a.K, a.Salt, bv, s, a.Sig) + " => ok"
-		}
+		// (a put without v is checked and signed over the empty byte string: bencode.Marshal(nil) = "")
+		e.pre = "sedtable " + edLine(a.K, a.Salt, bv, s, a.Sig) + " => ok"
 	}
 	src := g.src
 	e.dyn = func(st *srvState, e *sev) {
@@ -363,7 +362,7 @@ func genPutReject(r *rng, idx int) srvCase {
 	g.token()
 	g.put(v1, i64p(seq), 0, salt, true, 0, true) // stored
 	follow()
-	paths := []int{0, 1, 2, 3, 4, 5, 6, 7, 8, 9, 10, 11}
+	paths := []int{0, 1, 2, 3, 4, 5, 6, 7, 8, 9, 10, 11, 12, 13}
 	for i := range paths {
 		j := i + r.intn(len(paths)-i)
 		paths[i], paths[j] = paths[j], paths[i]
@@ -403,6 +402,25 @@ func genPutReject(r *rng, idx int) srvCase {
 			}
 			g.put(v1, i64p(seq+1), seq, salt, true, 0, true)
 			seq++
+		case 12: // no v at all, immutable: the value is the empty byte string, the item lives under sha1("")
+			g.put(nil, i64p(0), 0, nil, false, 0, true)
+			g.get(sha1.Sum(nil), nil, []*net.UDPAddr{g.src, other}[r.intn(2)])
+			g.get(sha1.Sum(nil), i64p([]int64{0, -1, maxI64, minI64}[r.intn(4)]), other)
+		case 13: // no v at all, mutable, under another salt: signed over "3:seqi<n>e1:v" + nothing; then a newer
+			// version with a value, then the value-less one again (lower seq: 302)
+			s2 := append([]byte("nov"), r.bytes(r.intn(8))...)
+			t2 := g.target(s2)
+			q := int64(1 + r.intn(6)) // never the sequence number the failing store refuses
+			if c.cfg.storeFail && q%7 == 3 {
+				q++
+			}
+			g.put(nil, i64p(q), 0, s2, true, 0, true)
+			g.get(t2, nil, other)
+			g.put(nil, i64p(q), 0, s2, true, 1+r.intn(2), true) // bad signature over the empty value: 206
+			if r.intn(2) == 0 {
+				g.put(v2, i64p(q), 0, s2, true, 0, true) // same seq, another value: 302
+			}
+			g.get(t2, i64p(q-1), g.src)
 		case 11: // the item expires; a get finds (and deletes) it, the next ones find nothing
 			g.add(sev{kind: "adv", adv: []time.Duration{119 * time.Minute, 121 * time.Minute, 5 * time.Hour}[r.intn(3)]})
 			g.get(tgt, nil, other)
